@@ -141,20 +141,42 @@ fn run_probe(cfg: &str, profile: &str, args: &[String]) -> Result<ProbeResult, S
     Ok(parse(&String::from_utf8_lossy(&out.stdout)))
 }
 
-fn one_config(cx: &mut Ctx, cfg: &'static str, profile: &'static str, tier_arg: &str, results: &mut Vec<(String, String, ProbeResult)>) {
-    let name = if profile == "release" { format!("config-{cfg}") } else { format!("config-{cfg}-{profile}") };
-    let t0 = Instant::now();
-    if let Err(e) = build(cfg, profile) {
-        eprintln!("BUILD-FAILED: fpprobe for configuration {cfg} ({profile}) does not build against /repo's current tree (inconclusive)\n{e}");
-        std::process::exit(2);
-    }
-    let r = match run_probe(cfg, profile, &[tier_arg.to_string(), cx.seed.to_string()]) {
-        Ok(r) => r,
-        Err(e) => {
-            eprintln!("HARNESS-ERROR: {e}");
+/// Builds (sequentially) and runs (concurrently) the probes of all four configurations for one profile.
+fn all_configs(cx: &mut Ctx, profile: &'static str, tier_arg: &str, results: &mut Vec<(String, String, ProbeResult)>) {
+    for cfg in CONFIGS {
+        if let Err(e) = build(cfg, profile) {
+            eprintln!("BUILD-FAILED: fpprobe for configuration {cfg} ({profile}) does not build against /repo's current tree (inconclusive)\n{e}");
             std::process::exit(2);
         }
-    };
+    }
+    let seed = cx.seed;
+    let outs: Vec<(f64, Result<ProbeResult, String>)> = std::thread::scope(|sc| {
+        let hs: Vec<_> = CONFIGS
+            .iter()
+            .map(|cfg| {
+                let args = [tier_arg.to_string(), seed.to_string()];
+                sc.spawn(move || {
+                    let t0 = Instant::now();
+                    let r = run_probe(cfg, profile, &args);
+                    (t0.elapsed().as_secs_f64(), r)
+                })
+            })
+            .collect();
+        hs.into_iter().map(|h| h.join().expect("probe thread")).collect()
+    });
+    for (cfg, (secs, r)) in CONFIGS.iter().zip(outs) {
+        match r {
+            Ok(r) => one_config(cx, cfg, profile, r, secs, results),
+            Err(e) => {
+                eprintln!("HARNESS-ERROR: {e}");
+                std::process::exit(2);
+            }
+        }
+    }
+}
+
+fn one_config(cx: &mut Ctx, cfg: &'static str, profile: &'static str, r: ProbeResult, secs: f64, results: &mut Vec<(String, String, ProbeResult)>) {
+    let name = if profile == "release" { format!("config-{cfg}") } else { format!("config-{cfg}-{profile}") };
     let mut obs = Obs::new();
     obs.sample_cap = 4;
     obs.evals = r.evals;
@@ -192,7 +214,7 @@ fn one_config(cx: &mut Ctx, cfg: &'static str, profile: &'static str, tier_arg: 
         }
     }
     let exhaustive = false;
-    cx.report(&name, obs, exhaustive, t0.elapsed().as_secs_f64(), "fpprobe binary built for this configuration");
+    cx.report(&name, obs, exhaustive, secs, "fpprobe binary built for this configuration");
     results.push((cfg.to_string(), profile.to_string(), r));
 }
 
@@ -202,14 +224,10 @@ pub fn run(cx: &mut Ctx) {
     cx.assume("per-backend bounds are fixed in harness/fpprobe/src/main.rs: libm and std <= 4 ulp (1 ulp for sqrt) against the f64 reference; micromath: sin/cos 2e-3 abs, sqrt 3e-3 rel, recip_sqrt 4e-3 rel, tan 2e-2, asin/acos/atan2 5e-2 abs, powf 5e-2 rel");
     let tier_arg = cx.tier.name().to_string();
     let mut results = vec![];
-    for cfg in CONFIGS {
-        one_config(cx, cfg, "release", &tier_arg, &mut results);
-    }
+    all_configs(cx, "release", &tier_arg, &mut results);
     if cx.tier == Tier::Thorough {
         // second build of every configuration with debug assertions and overflow checks off (quick-sized sweeps)
-        for cfg in CONFIGS {
-            one_config(cx, cfg, "nodebug", "quick", &mut results);
-        }
+        all_configs(cx, "nodebug", "quick", &mut results);
     }
     // cross-configuration consequence: pixel rounding behaves the same in every build
     let t0 = Instant::now();
